@@ -698,6 +698,13 @@ func c13Lenient(r *rand.Rand) Case {
 		fail = append(fail, "panic in RenderLenient: "+pn)
 	}
 	_, rerr := c13Engine.Render(s, data)
+	// a render that failed half-way leaves nothing behind for the next one
+	if after, aerr := c13Engine.Render("{{ .x }} ok", data); aerr != nil || after != "X ok" {
+		fail = append(fail, fmt.Sprintf("after rendering %q, the template \"{{ .x }} ok\" rendered %q (err=%v)", s, after, aerr))
+	}
+	if lafter := c13Engine.RenderLenient("plain-{{ .x }}", data); lafter != "plain-X" {
+		fail = append(fail, fmt.Sprintf("after rendering %q, RenderLenient(\"plain-{{ .x }}\") = %q", s, lafter))
+	}
 	if !strings.Contains(s, "{{") && got != s {
 		fail = append(fail, "RenderLenient changed text without '{{'")
 	}
